@@ -3,6 +3,7 @@
 package mimetype
 
 import (
+	"io"
 	vzip "archive/zip"
 	"bytes"
 	"compress/flate"
@@ -53,10 +54,19 @@ func vfExecMore6(f []string, op string) (string, bool) {
 		in, _ := vfExact(data)
 		m := Detect(in)
 		names := "~"
+		first := "-" // content of the first entry when it is a stored file (what an OpenDocument / EPUB package starts with)
 		if zr, err := vzip.NewReader(bytes.NewReader(data), int64(len(data))); err == nil {
 			var ns []string
-			for _, fl := range zr.File {
+			for i, fl := range zr.File {
 				ns = append(ns, vfHex([]byte(fl.Name)))
+				if i == 0 && fl.Method == vzip.Store && fl.UncompressedSize64 > 0 && fl.UncompressedSize64 <= 256 {
+					if rc, err := fl.Open(); err == nil {
+						if b, err := io.ReadAll(rc); err == nil && len(b) > 0 {
+							first = vfHex(b)
+						}
+						rc.Close()
+					}
+				}
 			}
 			if len(ns) > 0 {
 				names = strings.Join(ns, ",")
@@ -64,7 +74,7 @@ func vfExecMore6(f []string, op string) (string, bool) {
 		} else {
 			names = "!"
 		}
-		return fmt.Sprintf("%s => %s %s", op, vfChain(m), names), true
+		return fmt.Sprintf("%s => %s %s %s", op, vfChain(m), names, first), true
 	}
 	return vfExecMore7(f, op)
 }
@@ -314,6 +324,18 @@ func (g *vfGen) genC19() {
 			es := []vfEntry{{name: "mimetype", body: []byte(t), stored: true, nodesc: g.intn(2) == 0}}
 			es = append(es, mk("META-INF/manifest.xml"), mk("content.xml"), mk("styles.xml"))
 			emit(es)
+			// the same package with a marker of another family somewhere behind the mimetype file (a signed
+			// document carries META-INF/MANIFEST.MF; "markers at any position")
+			if g.intn(2) == 0 {
+				all := []string{"META-INF/MANIFEST.MF", "classes.dex", "AndroidManifest.xml", "resources.arsc", "res/drawable/x.png", "word/document.xml", "xl/workbook.xml", "ppt/presentation.xml", "[Content_Types].xml"}
+				es2 := []vfEntry{es[0]}
+				rest := []vfEntry{mk("META-INF/manifest.xml"), mk("content.xml"), mk("styles.xml"), mk(all[g.intn(len(all))])}
+				if g.intn(2) == 0 {
+					rest = append(rest, mk(all[g.intn(len(all))]))
+				}
+				g.rng.Shuffle(len(rest), func(a, b int) { rest[a], rest[b] = rest[b], rest[a] })
+				emit(append(es2, rest...))
+			}
 		case 5: // no marker at all
 			var es []vfEntry
 			for j := 0; j < 1+g.intn(8); j++ {
